@@ -139,6 +139,10 @@ func c08Round(run *ev.Run, o c08One, buf gopacket.SerializeBuffer, rdec *c08Deco
 	cs := ev.MkCase("one", o)
 	r := rng(o.Seed+int64(o.Index)*7919, "c08"+o.Layer)
 	plen := (o.Index + r.Intn(3)*67) % 201
+	if o.Layer == "V2Session" && o.Index%10 == 9 {
+		// the RMCP+ length field is 16 bits wide: payloads beyond one byte's worth as well
+		plen = []int{250, 254, 255, 256, 257, 300, 511, 512, 513, 700, 1024, 2000}[(o.Index/10)%12]
+	}
 	inner := rbytes(r, plen)
 	if buf == nil {
 		buf = gopacket.NewSerializeBuffer()
